@@ -8,7 +8,11 @@
 //! this host does not have, so every IPv6 candidate fails while it is being set up); `0` = `--`, `1` = `-x`.
 //! Which families are bound decides the preferred family and with it the order of the attempts (C16).
 //!
-//! line: `tcpc <happy_eyeballs_timeout ms|-> <concurrency|-> <connect_timeout ms|-> <local addresses> ; <cand> ; …`
+//! `via` (optional fifth token): `a` = `connect_to_addrs` with the candidates' addresses (each its own port on loopback); `c` = the
+//! transport as a service - `call` with a URI, a resolver that answers with the candidates (all on the URI's port: 127.0.1.x for
+//! IPv4 candidates, the black hole on 127.0.0.1, ::1 for the at most one IPv6 candidate), i.e. `TcpTransport::connect(host, port)`.
+//!
+//! line: `tcpc <happy_eyeballs_timeout ms|-> <concurrency|-> <connect_timeout ms|-> <local addresses> [<via a|c>] ; <cand> ; …`
 //! obs : `<ok|timeout|err> <winner index | error kind refused|ctimeout|bind|other | -> <elapsed ms> ; <connections accepted per candidate, - if not a listener>…`
 //!       or `unreliable` when the machine stalled during the case (a 5 ms heartbeat saw a gap of more than 40 ms)
 use crate::rng::Rng;
@@ -24,6 +28,25 @@ pub fn gen(r: &mut Rng, _i: u64) -> String {
     let t = *r.pick(&["300", "600", "600", "-"]);
     let ct = *r.pick(&["-", "-", "120"]);
     let conc = *r.pick(&["1", "1", "1", "2", "-"]);
+    if r.chance(1, 6) {
+        // no overall deadline: only the per-attempt timeout gets the run past a candidate that never answers
+        let conc = *r.pick(&["1", "1", "2", "-"]);
+        let mut cands: Vec<&str> = vec!["hang"];
+        if r.chance(1, 2) { cands.insert(r.below(2) as usize, *r.pick(&["refuse", "hang", "refuse6"])); }
+        cands.push(*r.pick(&["ok", "ok", "ok6"]));
+        return format!("- {conc} 120 0 {} ; {}", if r.chance(1, 2) { "a" } else { "c" }, cands.join(" ; "));
+    }
+    if r.chance(1, 5) {
+        // through the resolver: few candidates (often a single one) that answer, refuse or hang, a deadline that is shorter than
+        // the per-attempt timeout or the only bound there is
+        let t = *r.pick(&["300", "300", "600"]);
+        let ct = *r.pick(&["-", "-", "2000"]);
+        let conc = *r.pick(&["1", "2", "-"]);
+        let n = *r.pick(&[1u64, 1, 2, 3]);
+        let mut cands: Vec<&str> = (0..n).map(|_| *r.pick(&["hang", "hang", "ok", "refuse"])).collect();
+        if r.chance(1, 4) { cands.push("ok6"); }
+        return format!("{t} {conc} {ct} 0 c ; {}", cands.join(" ; "));
+    }
     let order_case = r.chance(1, 3);
     let bind6 = if order_case { *r.pick(&["s-", "w-", "-s", "-w", "sw", "ws", "ww", "ss", "wx", "sx"]) } else if r.chance(1, 4) { "1" } else { "0" };
     let n = r.range(1, 4);
@@ -75,10 +98,22 @@ fn closed_port(v6: bool) -> SocketAddr {
     l.local_addr().unwrap()
 }
 
+/// a resolver that answers every name with the candidates of the case
+#[derive(Clone)]
+struct Fixed(Vec<SocketAddr>);
+impl tower::Service<Box<str>> for Fixed {
+    type Response = hyperdriver::client::conn::dns::SocketAddrs;
+    type Error = std::io::Error;
+    type Future = std::future::Ready<Result<Self::Response, std::io::Error>>;
+    fn poll_ready(&mut self, _: &mut std::task::Context<'_>) -> std::task::Poll<Result<(), std::io::Error>> { std::task::Poll::Ready(Ok(())) }
+    fn call(&mut self, _: Box<str>) -> Self::Future { std::future::ready(Ok(self.0.iter().copied().collect())) }
+}
+
 pub fn run(toks: &[&str]) -> String {
     let mut parts: Vec<Vec<&str>> = vec![vec![]];
     for t in toks { if *t == ";" { parts.push(vec![]); } else { parts.last_mut().unwrap().push(*t); } }
-    if parts[0].len() != 4 || parts[1..].iter().any(|p| p.len() != 1) { return "bad-line".into(); }
+    if !(parts[0].len() == 4 || parts[0].len() == 5) || parts[1..].iter().any(|p| p.len() != 1) { return "bad-line".into(); }
+    let via_call = parts[0].get(4) == Some(&"c");
     let opt = |s: &str| s.parse::<u64>().ok().map(Duration::from_millis);
     let mut config = TcpTransportConfig::default();
     config.happy_eyeballs_timeout = opt(parts[0][0]);
@@ -89,7 +124,8 @@ pub fn run(toks: &[&str]) -> String {
     config.local_address_ipv4 = match &local[0..1] { "-" => None, "s" => Some(std::net::Ipv4Addr::LOCALHOST), "w" => Some(std::net::Ipv4Addr::UNSPECIFIED), _ => return "bad-line".into() };
     config.local_address_ipv6 = match &local[1..2] { "-" => None, "s" => Some(std::net::Ipv6Addr::LOCALHOST), "w" => Some(std::net::Ipv6Addr::UNSPECIFIED), "x" => Some("2001:db8::1".parse().unwrap()), _ => return "bad-line".into() };
     let kinds: Vec<String> = parts[1..].iter().map(|p| p[0].to_string()).collect();
-    let hole = if kinds.iter().any(|k| k == "hang") { Some(blackhole()) } else { None };
+    let hole = if via_call || kinds.iter().any(|k| k == "hang") { Some(blackhole()) } else { None };
+    if via_call && kinds.iter().filter(|k| k.ends_with('6')).count() > 1 { return "bad-line".into(); }
 
     // heartbeat: was the machine too busy for the timing of this case to mean anything?
     let stop = Arc::new(AtomicBool::new(false));
@@ -109,23 +145,35 @@ pub fn run(toks: &[&str]) -> String {
         let mut addrs = vec![];
         let mut counters: Vec<Option<Arc<AtomicUsize>>> = vec![];
         let mut tasks = vec![];
-        for k in &kinds {
+        // through the resolver every candidate gets the URI's port: candidates differ in their address
+        let port = hole.map(|h| h.port()).unwrap_or(0);
+        for (ci, k) in kinds.iter().enumerate() {
+            let at = |v6: bool| -> SocketAddr { if !via_call { if v6 { "[::1]:0".parse().unwrap() } else { "127.0.0.1:0".parse().unwrap() } }
+                                                 else if v6 { SocketAddr::new("::1".parse().unwrap(), port) } else { SocketAddr::new(std::net::Ipv4Addr::new(127, 0, 1, ci as u8 + 1).into(), port) } };
             match k.as_str() {
                 "ok" | "ok6" => {
-                    let Ok(l) = tokio::net::TcpListener::bind(if k == "ok6" { "[::1]:0" } else { "127.0.0.1:0" }).await else { return "bad-line".to_string() };
+                    let Ok(l) = tokio::net::TcpListener::bind(at(k == "ok6")).await else { return "unreliable".to_string() };
                     addrs.push(l.local_addr().unwrap());
                     let c = Arc::new(AtomicUsize::new(0));
                     counters.push(Some(c.clone()));
                     tasks.push(tokio::spawn(async move { let mut keep = vec![]; while let Ok((s, _)) = l.accept().await { c.fetch_add(1, Ordering::SeqCst); keep.push(s); } }));
                 }
-                "refuse" | "refuse6" => { addrs.push(closed_port(k == "refuse6")); counters.push(None); }
+                "refuse" | "refuse6" => { addrs.push(if via_call { at(k == "refuse6") } else { closed_port(k == "refuse6") }); counters.push(None); }
                 "hang" => { addrs.push(hole.unwrap()); counters.push(None); }
                 _ => return "bad-line".to_string(),
             }
         }
-        let transport = TcpTransport::builder().with_config(config).with_gai_resolver().build::<TcpStream>();
-        let t0 = Instant::now();
-        let res = tokio::time::timeout(Duration::from_secs(20), transport.connect_to_addrs(addrs.clone())).await;
+        let t0;
+        let res = if via_call {
+            let transport = TcpTransport::builder().with_config(config).with_resolver(Fixed(addrs.clone())).build::<TcpStream>();
+            let parts = http::Request::get(format!("http://tcpc.test:{port}/")).body(()).unwrap().into_parts().0;
+            t0 = Instant::now();
+            tokio::time::timeout(Duration::from_secs(20), tower::ServiceExt::oneshot(transport, parts)).await
+        } else {
+            let transport = TcpTransport::builder().with_config(config).with_gai_resolver().build::<TcpStream>();
+            t0 = Instant::now();
+            tokio::time::timeout(Duration::from_secs(20), transport.connect_to_addrs(addrs.clone())).await
+        };
         let elapsed = t0.elapsed().as_millis();
         let head = match res {
             Err(_) => "hang - 20000".to_string(),
